@@ -72,6 +72,11 @@ def rand_parts(lr, rng, force_fusion=True):
     return parts
 
 
+# fusion must be faithful under every configuration: scenarios are run under the three tensordot policies and both default fusion modes
+KNOBS = [{'fusion': 'hard', 'force': None, 'policy': 'fuse_to_matrix'}] * 2 + [{'fusion': 'hard', 'force': None, 'policy': 'fuse_contracted'}] * 2 + \
+        [{'fusion': 'meta', 'force': None, 'policy': 'fuse_contracted'}, {'fusion': 'hard', 'force': None, 'policy': 'no_fusion'}, {'fusion': 'meta', 'force': None, 'policy': 'no_fusion'}]
+
+
 class Runner:
     """ executes ops as they are produced, keeping observed abstract states (same event format as tensors.generate) """
 
@@ -89,7 +94,7 @@ class Runner:
         e = T.event_of(op, out, res, self.sym, None)
         self.ev.append(e)
         self.prog.ops.append(op)
-        if out == 'ok':
+        if out == 'ok' and e['out'] == 'ok':
             self.regs.append(res)
             self.obs.append(e['obs'])
             return len(self.regs) - 1
@@ -119,7 +124,7 @@ def scenario_runner(args):
         perm = list(range(4))
         rng.shuffle(perm)                       # storage order differs from the pairing
         inits = [init_struct(sym, [s[i] for i in perm], [legs[i] for i in perm], rng)]
-        R = Runner(sym, seed, inits)
+        R = Runner(sym, seed, inits, knob=KNOBS[(seed // 7) % len(KNOBS)])
         inv = [perm.index(i) for i in range(4)]  # position of original leg i
         mode = rng.choice(('hard', 'meta', 'hard'))
         a = R.do({'op': 'fuse', 'a': 0, 'parts': [[inv[0], inv[1]], [inv[2], inv[3]]], 'mode': mode})
@@ -133,6 +138,135 @@ def scenario_runner(args):
             c = R.do({'op': 'consume_transpose', 'a': a})
             R.do({'op': 'trace', 'a': c, 'l0': [1], 'l1': [0]})
         R.do({'op': 'unfuse', 'a': a, 'axes': [0, 1]})
+        return R
+    if kind == 'S7':
+        # n-ary sums / incompatibility that is visible neither from the first operand nor at the top level: b and c give different dimensions to one charge q of a
+        # constituent leg x, but pair it with different charges of y (different effective sectors, so the fused legs themselves do not clash); a does not have q at all
+        # (consistency of {charge: D} maps is not transitive).  Identically hard-fused (depth 1-2): every sum that contains b AND c must be rejected, the rest computed
+        mod = T.SYMS[sym]
+        if not mod:
+            kind = 'S1'
+        else:
+            for _ in range(50):
+                q, q2 = T.rand_charge(mod, rng), T.rand_charge(mod, rng)
+                y1, y2 = T.rand_charge(mod, rng), T.rand_charge(mod, rng)
+                f = lambda x, y: T.fuse_charge(mod, [x, y], [1, 1])
+                if q != q2 and y1 != y2 and f(q, y1) != f(q, y2):
+                    break
+            else:
+                kind = 'S1'
+            if kind == 'S7':
+                D = rng.choice((1, 2))
+                ya = rng.choice((y1, y2))
+                specs = [((q2, ya), {q2: rng.choice((1, 2, 3))}), ((q, y1), {q: D}), ((q, y2), {q: D + 1}), ((q, y2), {q: D})]     # a, b, c and d (d = c with b's dimension: compatible)
+                Dy = {y1: rng.choice((1, 2)), y2: rng.choice((1, 2))}
+                sts = []
+                for (x, y), Dx in specs:
+                    z = f(x, y)
+                    sts.append({'s': [1, 1, -1], 'legs': [sorted(Dx.items()), [(y, Dy[y])], [(z, rng.choice((1, 2)))]], 'n': tuple(0 for _ in mod), 'dtype': 'float64', 'isdiag': False,
+                                'dataseed': rng.randrange(1 << 30), 'density': 1.0})
+                R = Runner(sym, seed, sts, knob=KNOBS[(seed // 7) % len(KNOBS)])
+                regs = [R.do({'op': 'fuse', 'a': r, 'parts': [[0, 1], [2]], 'mode': 'hard'}) for r in range(4)]
+                if None not in regs and rng.random() < 0.5:
+                    r2 = [R.do({'op': 'fuse', 'a': r, 'parts': [[0, 1]], 'mode': 'hard'}) for r in regs]
+                    regs = r2 if None not in r2 else regs
+                if None in regs:
+                    return R
+                a, b, c, d = regs
+                for x, y, z in ((a, b, c), (b, a, c), (a, c, b), (c, b, a), (a, b, d), (d, a, b)):
+                    R.do({'op': 'add3', 'a': x, 'b': y, 'c': z, 'amp': [[1, 0], [rng.choice((1, -1, 2)), 0], [1, 0]]})
+                for x, y in ((a, b), (a, c), (b, c), (c, b), (b, d)):
+                    R.do({'op': 'lincomb', 'a': x, 'b': y, 'amp': [[1, 0], [1, 0]]})
+                return R
+    if kind == 'S6':
+        # in-place contraction over (x, y) where the merged operand needs zero padding: every block of a has its own charge on the outgoing leg and holds ONE of several
+        # (x, y) combinations of its sector; the blocks stored last have no partner in b.  The sizes are searched so that the padding equals the size of the partner-less
+        # blocks (old and new data then have the same length - the situation in which a "nothing to move" shortcut is tempting and wrong)
+        mod = T.SYMS[sym]
+        if not mod:
+            kind = 'S5'
+        else:
+            for _ in range(200):
+                xs = sorted({T.rand_charge(mod, rng) for _ in range(3)})[:2]
+                ys = sorted({T.rand_charge(mod, rng, 2) for _ in range(4)})
+                if len(xs) < 2 or len(ys) < 3:
+                    continue
+                Dx = {t: rng.choice((1, 1, 2, 3)) for t in xs}
+                Dy = {t: rng.choice((1, 1, 2)) for t in ys}
+                ynp = ys[-1]                                       # the y charge that b does not have
+                combos = [(x, y) for x in xs for y in ys if y != ynp]
+                rng.shuffle(combos)
+                osum = lambda x, y: T.fuse_charge(mod, [x, y], [1, 1])
+                part, seen = [], set()
+                for x, y in combos:
+                    if osum(x, y) not in seen and len(part) < 3:
+                        part.append((x, y))
+                        seen.add(osum(x, y))
+                nonp = [(x, ynp) for x in xs if osum(x, ynp) not in seen and osum(x, ynp) > max(seen)]
+                if len(part) < 2 or not nonp:
+                    continue
+                Do = {o: rng.choice((1, 2, 3)) for o in seen | {osum(x, y) for x, y in nonp}}
+                a_blocks = part + nonp
+                # sectors of the merged (x, y) leg of a: all combinations of the x and y charges PRESENT in a's blocks
+                ax, ay = {x for x, _ in a_blocks}, {y for _, y in a_blocks}
+                Dc = lambda c: sum(Dx[x] * Dy[y] for x in ax for y in ay if osum(x, y) == c)
+                padding = sum(Do[osum(x, y)] * (Dc(osum(x, y)) - Dx[x] * Dy[y]) for x, y in part)
+                lost = sum(Do[osum(x, y)] * Dx[x] * Dy[y] for x, y in nonp)
+                if padding == lost and padding > 0:
+                    break
+            else:
+                kind = 'S5'
+            if kind == 'S6':
+                extra = [(x, y) for x in xs for y in ys if y != ynp and (x, y) not in part][:1]        # a combination of b that is absent in a
+                pus = {}
+                for x, y in part + extra:
+                    pus[osum(x, y)] = rng.choice((1, 2))
+                la = [sorted(Do.items()), sorted(Dx.items()), sorted(Dy.items())]
+                lb = [sorted(Dx.items()), sorted((t, D) for t, D in Dy.items() if t != ynp), sorted(pus.items())]
+                zero = tuple(0 for _ in mod)
+                sta = {'s': [-1, 1, 1], 'legs': la, 'n': zero, 'dtype': 'float64', 'isdiag': False, 'dataseed': rng.randrange(1 << 30), 'density': 1.0,
+                       'blocks': [(osum(x, y), x, y) for x, y in a_blocks]}
+                stb = {'s': [-1, -1, 1], 'legs': lb, 'n': zero, 'dtype': 'float64', 'isdiag': False, 'dataseed': rng.randrange(1 << 30), 'density': 1.0,
+                       'blocks': [(x, y, osum(x, y)) for x, y in part + extra]}
+                R = Runner(sym, seed, [sta, stb], knob=KNOBS[(seed // 7) % len(KNOBS)])
+                R.do({'op': 'tensordot', 'a': 0, 'b': 1, 'la': [1, 2], 'lb': [0, 1], 'conj': [0, 0]})
+                for mode in ('hard', 'meta'):
+                    fa = R.do({'op': 'fuse', 'a': 0, 'parts': [[0], [1, 2]], 'mode': mode})
+                    fb = R.do({'op': 'fuse', 'a': 1, 'parts': [[0, 1], [2]], 'mode': mode})
+                    if fa is not None and fb is not None:
+                        R.do({'op': 'tensordot', 'a': fa, 'b': fb, 'la': [1], 'lb': [0], 'conj': [0, 0]})
+                return R
+    if kind == 'S5':
+        # sparse operands contracted IN PLACE (last legs of a with the first legs of b, no transposition) over 2-3 legs: blocks without a partner in the other operand,
+        # charge combinations of the contracted group that are absent (zero padding inside the merged blocks), dimension mostly one; over the original legs and over
+        # the identically fused group (hard / meta, depth 1-2), under the policy of the job
+        nc = rng.choice((2, 2, 3))
+        cu = universe_legs(sym, rng, nc)
+        if T.SYMS[sym]:
+            cu = [{t: (1 if rng.random() < 0.7 else 2) for t in u} for u in cu]
+        ou, pu = universe_legs(sym, rng, 1)[0], universe_legs(sym, rng, 1)[0]
+        sc = [rng.choice((1, -1)) for _ in range(nc)]
+        la = [sorted(ou.items())] + [sorted(u.items()) for u in cu]
+        lb = [sorted(u.items()) for u in cu] + [sorted(pu.items())]
+        sta = init_struct(sym, [rng.choice((1, -1))] + sc, la, rng, density=rng.choice((0.4, 0.5, 0.7)))
+        stb = init_struct(sym, [-x for x in sc] + [rng.choice((1, -1))], lb, rng, density=rng.choice((0.4, 0.5, 0.7)))
+        R = Runner(sym, seed, [sta, stb], knob=KNOBS[(seed // 7) % len(KNOBS)])
+        ca, cb = list(range(1, nc + 1)), list(range(nc))
+        R.do({'op': 'tensordot', 'a': 0, 'b': 1, 'la': ca, 'lb': cb, 'conj': [0, 0]})
+        for mode in rng.sample(('hard', 'meta'), 2):
+            fa = R.do({'op': 'fuse', 'a': 0, 'parts': [[0], ca], 'mode': mode})
+            fb = R.do({'op': 'fuse', 'a': 1, 'parts': [cb, [nc]], 'mode': mode})
+            if fa is not None and fb is not None:
+                R.do({'op': 'tensordot', 'a': fa, 'b': fb, 'la': [1], 'lb': [0], 'conj': [0, 0]})
+            if nc == 3:
+                fa = R.do({'op': 'fuse', 'a': 0, 'parts': [[0], [1, 2], [3]], 'mode': mode})
+                fb = R.do({'op': 'fuse', 'a': 1, 'parts': [[0, 1], [2], [3]], 'mode': mode})
+                if fa is not None and fb is not None:
+                    R.do({'op': 'tensordot', 'a': fa, 'b': fb, 'la': [1, 2], 'lb': [0, 1], 'conj': [0, 0]})
+                    ffa = R.do({'op': 'fuse', 'a': fa, 'parts': [[0], [1, 2]], 'mode': mode})
+                    ffb = R.do({'op': 'fuse', 'a': fb, 'parts': [[0, 1], [2]], 'mode': mode})
+                    if ffa is not None and ffb is not None:
+                        R.do({'op': 'tensordot', 'a': ffa, 'b': ffb, 'la': [1], 'lb': [0], 'conj': [0, 0]})
         return R
     sa = [rng.choice((1, -1)) for _ in range(rank)]
     opposite = rng.random() < 0.5
@@ -161,7 +295,7 @@ def scenario_runner(args):
         if common:
             n = rng.choice(sorted(common))
             sta['n'] = stb['n'] = n
-    R = Runner(sym, seed, [sta, stb])
+    R = Runner(sym, seed, [sta, stb], knob=KNOBS[(seed // 7) % len(KNOBS)])
     R.do({'op': 'norm2', 'a': 0})
     a, b = 0, 1
     depth = rng.choice((1, 1, 2, 3)) if not sig2 else 1
@@ -245,9 +379,9 @@ def scenario_runner(args):
 def main(tier, seed, replay=None):
     rep = Report('C03', tier, seed, 'model_checking')
     rep.cov['rule'] = ('scenario programs S1 (binary ops over identically fused legs with equal/overlapping/disjoint sector content), S2 (trace over fused legs), '
-                       'S3 (incompatibly fused operands must be rejected), S4 (fuse to depth<=3 / unfuse roundtrip, norm) in all symmetries, hard/meta/mixed fusion, '
+                       'S3 (incompatibly fused operands must be rejected), S4 (fuse to depth<=3 / unfuse roundtrip, norm), S5 (sparse operands contracted in place over 2-3 legs, original vs fused) in all symmetries and configurations, hard/meta/mixed fusion, '
                        'with lazy transpositions; non-trivial = event on a fused operand (or a fuse/unfuse event) with >= 1 element')
-    kinds = ['S1', 'S1', 'S1', 'S2', 'S3', 'S4']
+    kinds = ['S1', 'S1', 'S1', 'S2', 'S3', 'S4', 'S5', 'S6', 'S7']
     if replay:
         rep.write_evidence = False
         import json
